@@ -175,6 +175,49 @@ Definition count_in (from to : N) (all : list elem) : N := N.of_nat (length (in_
     | ROof => ROof
     end.
 
+  (* original addElement, as called by Set for EVERY element (also for an id that is already present): the cached
+     count is incremented and compared with the threshold; a leaf's count is refreshed from the skip list by
+     recalculateHashes, a divided range's count is not *)
+  Fixpoint add_elem_legacy (df th : N) (fuel : nat) (all' : list elem) (t : rtree) (h : N) : rtree :=
+    match t with
+    | RLeaf from to cnt _ =>
+        if (th <? cnt + 1) && can_divide df from to then
+          match fuel with
+          | O => ROof
+          | S f =>
+              let ch := map (fun r => build df th f all' (fst r) (snd r)) (gen_tuple_ranges df from to) in
+              RNode from to (cnt + 1) (HDiv (map rhash ch)) ch
+          end
+        else RLeaf from to (count_in from to all') (elems_digest (in_range from to all'))
+    | RNode from to cnt _ ch =>
+        match fuel with
+        | O => ROof
+        | S f =>
+            let ch' := update_nth (N.to_nat (bucket df from to h)) (fun c => add_elem_legacy df th f all' c h) ch in
+            RNode from to (cnt + 1) (HDiv (map rhash ch')) ch'
+        end
+    | ROof => ROof
+    end.
+
+  (* original removeElement: only the parent of the touched leaf is merged *)
+  Fixpoint remove_elem_legacy (df th : N) (fuel : nat) (top : bool) (all' : list elem) (t : rtree) (h : N) : rtree :=
+    match t with
+    | RLeaf from to cnt _ => RLeaf from to (cnt - 1) (elems_digest (in_range from to all'))
+    | RNode from to cnt _ ch =>
+        match fuel with
+        | O => ROof
+        | S f =>
+            let i := N.to_nat (bucket df from to h) in
+            let child_is_leaf := match nth_error ch i with Some (RLeaf _ _ _ _) => true | _ => false end in
+            if child_is_leaf && negb top && (cnt - 1 <=? th)
+            then RLeaf from to (cnt - 1) (elems_digest (in_range from to all'))
+            else
+              let ch' := update_nth i (fun c => remove_elem_legacy df th f false all' c h) ch in
+              RNode from to (cnt - 1) (HDiv (map rhash ch')) ch'
+        end
+    | ROof => ROof
+    end.
+
   (* ---------------------------------------------------------------- the index: contents + range tree *)
 
   Record index := mkIndex { contents : list elem; tree : rtree }.
@@ -191,6 +234,19 @@ Definition count_in (from to : N) (all : list elem) : N := N.of_nat (length (in_
     else mkIndex all' (add_elem df th (S FUEL) all' (tree ix) (ehash e)).
 
   Definition set_many (df th : N) (ix : index) (es : list elem) : index := fold_left (set_one df th) es ix.
+
+  (* original diff.Set: every element is counted again, also when its id was already present *)
+  Definition set_one_legacy (df th : N) (ix : index) (e : elem) : index :=
+    let all' := set_content e (contents ix) in
+    mkIndex all' (add_elem_legacy df th (S FUEL) all' (tree ix) (ehash e)).
+
+  Definition remove_id_legacy (df th : N) (ix : index) (id : N) : index :=
+    match hash_of_id id (contents ix) with
+    | None => ix
+    | Some h =>
+        let all' := delete_id id (contents ix) in
+        mkIndex all' (remove_elem_legacy df th (S FUEL) true all' (tree ix) h)
+    end.
 
   (* diff.RemoveId *)
   Definition remove_id (df th : N) (ix : index) (id : N) : index * bool :=
